@@ -127,6 +127,11 @@ package lexer
 //@   ensures[table-spelling] !(r == '-' && fl_r0 == '-') && !isNumberLexeme(r) && !isStringLexeme(r) && !has(tokens, text+string(pk_r0)) && has(tokens, text) ==>
 //@       ret1 && ret0.Text == text && (ret0.Type == tokens[text] || (tokens[text].IsFunction() && ret0.Type == Ident))
 //@   ensures[keywords-and-operators-keep-their-token] !(r == '-' && fl_r0 == '-') && !isNumberLexeme(r) && !isStringLexeme(r) && !has(tokens, text+string(pk_r0)) && has(tokens, text) && !tokens[text].IsFunction() ==> ret0.Type == tokens[text]
+//@   loop 0 modifies scanRemaining(&l.scanner)
+//@   loop 0 invariant scanRemaining(&l.scanner) <= old(scanRemaining(&l.scanner)) && l.err == old(l.err)
+//@   loop 0 decreases scanRemaining(&l.scanner)
+//@   capture cm = call(l.scanner.Peek, 2)
+//@   loop 0 exit_ensures[comments-before-the-parenthesis-are-skipped] cm_called && cm_r0 != '#'
 //@   ensures[identifier-otherwise] !(r == '-' && fl_r0 == '-') && !isNumberLexeme(r) && !isStringLexeme(r) && !has(tokens, text+string(pk_r0)) && !has(tokens, text) ==> ret1 && ret0.Type == Ident && ret0.Text == text
 
 //@ ghost state func scanRemaining(s *scanner.Scanner) int
